@@ -350,8 +350,9 @@ impl DrawExecutor {
     fn draw_ellipse(&mut self, xm: i32, ym: i32, a: i32, b: i32) {
         let mut x = -a;
         let mut y = 0; /* II. quadrant from bottom left to top right */
-        let e2 = b * b;
-        let mut err = x * (2 * e2 + x) + e2; /* error of 1.step */
+        // the error terms grow like radius^3: 64 bits, i32 overflowed for radii of a few hundred
+        let (a2, b2) = (a as i64 * a as i64, b as i64 * b as i64);
+        let mut err = x as i64 * (2 * b2 + x as i64) + b2; /* error of 1.step */
         let color = self.line_color;
 
         while x <= 0 {
@@ -360,15 +361,15 @@ impl DrawExecutor {
             self.set_pixel(xm + x, ym - y, color); /* III. Quadrant */
             self.set_pixel(xm - x, ym - y, color); /*  IV. Quadrant */
             let e2 = 2 * err;
-            if e2 >= (x * 2 + 1) * b * b {
+            if e2 >= (x as i64 * 2 + 1) * b2 {
                 /* e_xy+e_x > 0 */
                 x += 1;
-                err += (x * 2 + 1) * b * b;
+                err += (x as i64 * 2 + 1) * b2;
             }
-            if e2 <= (y * 2 + 1) * a * a {
+            if e2 <= (y as i64 * 2 + 1) * a2 {
                 /* e_xy+e_y < 0 */
                 y += 1;
-                err += (y * 2 + 1) * a * a;
+                err += (y as i64 * 2 + 1) * a2;
             }
         }
 
